@@ -316,6 +316,77 @@ func (w *sdWorld) sessAddr() string { return w.addr }
 
 // sd.stress <iterations>: in a child process (a fatal runtime error cannot be recovered) the hosting
 // server registers and removes services locally while a client does the same remotely
+// sd.samename <rounds> <writers>: in every round several registrations of one fresh name at the same moment — local
+// ones (Server.NewService, which reserves the name directly) and a remote one (through the directory object): a name
+// is held by at most one service: exactly one of them is granted, and the list holds the name once.
+func childSdSameName(a []string) string {
+	var rounds, writers int
+	fmt.Sscanf(a[0], "%d", &rounds)
+	fmt.Sscanf(a[1], "%d", &writers)
+	w, res := sdNew()
+	if res != "ok" {
+		return res
+	}
+	defer w.close()
+	for round := 0; round < rounds; round++ {
+		name := fmt.Sprintf("same%d", round)
+		start := make(chan struct{})
+		var wg sync.WaitGroup
+		var granted int64
+		var locals []bus.Service
+		var mu sync.Mutex
+		var remote uint32
+		for g := 0; g < writers; g++ {
+			wg.Add(1)
+			go func(g int) {
+				defer wg.Done()
+				<-start
+				if g == 0 {
+					if id, err := w.sd.RegisterService(sdInfo(name, "m", "1", "1", 0)); err == nil {
+						atomic.AddInt64(&granted, 1)
+						remote = id
+					}
+					return
+				}
+				if s, err := w.srv.NewService(name, sdNoop{}); err == nil {
+					atomic.AddInt64(&granted, 1)
+					mu.Lock()
+					locals = append(locals, s)
+					mu.Unlock()
+				}
+			}(g)
+		}
+		close(start)
+		wg.Wait()
+		if granted != 1 {
+			return fmt.Sprintf("fail:name-granted-%d-times", granted)
+		}
+		if remote != 0 {
+			w.sd.ServiceReady(remote)
+		}
+		l, err := w.sd.Services()
+		if err != nil {
+			return "fail:" + err.Error()
+		}
+		count := 0
+		for _, i := range l {
+			if i.Name == name {
+				count++
+			}
+		}
+		if count != 1 {
+			return fmt.Sprintf("fail:name-listed-%d-times", count)
+		}
+		if remote != 0 {
+			w.sd.UnregisterService(remote)
+		}
+		for _, s := range locals {
+			s.Terminate()
+		}
+	}
+	return "ok"
+}
+
 func childSdStress(a []string) string {
 	var n int
 	fmt.Sscanf(a[0], "%d", &n)
@@ -512,6 +583,17 @@ func init() {
 		}
 		return out.Result
 	}
+	children["sd.samename"] = childSdSameName
+	executors["sd.samename"] = func(a []string) string {
+		out := runChild("sd.samename", strings.Join(a, " "), 120*time.Second, 0)
+		if out.Result != "ok" {
+			lastFailDetail = out.Stderr
+		}
+		if out.Result == "crash-noresult" {
+			return "crash"
+		}
+		return out.Result
+	}
 	children["sd.stress"] = childSdStress
 	executors["sd.stress"] = func(a []string) string {
 		out := runChild("sd.stress", strings.Join(a, " "), 120*time.Second, 0)
@@ -657,6 +739,18 @@ func runC15(r *Rand, tier string, o *Out) {
 			o.Fail("directory under concurrent local and remote operations: "+strings.SplitN(out, " ", 2)[0], "sd.stress 300 => "+out+" "+tail(lastFailDetail, 300))
 		}
 		o.Count("stress")
+	}
+	// one name asked for by several at once
+	same := [][2]int{{400, 2}, {400, 6}}
+	if tier == "thorough" {
+		same = [][2]int{{8000, 2}, {8000, 6}, {4000, 12}}
+	}
+	for _, sn := range same {
+		line := fmt.Sprintf("sd.samename %d %d", sn[0], sn[1])
+		if out := o.Do("P", line, true); out != "ok" {
+			o.Fail("one name registered by several at once: "+strings.TrimPrefix(out, "fail:"), line+" => "+out+" "+tail(lastFailDetail, 300))
+		}
+		o.Count("same-name-races")
 	}
 	races := 2
 	if tier == "thorough" {
